@@ -379,6 +379,9 @@ class SubscriptedMappingMarshaller(AbstractMarshaller[MappingT], tp.Generic[Mapp
         self.values = context[value_t]
 
     def __call__(self, val: MappingT) -> MarshalledMappingT:
+        # Text is no collection of members: a one-character string is its own only element.
+        if inspection.istexttype(val.__class__):
+            raise TypeError(f"{val!r} is text, not a {self.t!r}")
         keys = self.keys
         values = self.values
         return {keys(k): values(v) for k, v in serdes.iteritems(val)}  # type: ignore[misc]
@@ -418,7 +421,9 @@ class SubscriptedIterableMarshaller(
         Args:
             val: The iterable to marshal.
         """
-        # Always decode bytes.
+        # Text is no collection of members: a one-character string is its own only element.
+        if inspection.istexttype(val.__class__):
+            raise TypeError(f"{val!r} is text, not a {self.t!r}")
         values = self.values
         return [values(v) for v in serdes.itervalues(val)]
 
